@@ -100,6 +100,59 @@ theorem unparsable_line_fails {r : RawFile} {l e : String} (hl : l ∈ r.annotat
   obtain ⟨e', h⟩ := parseAnnotations_error hl he
   exact convert_error_of_annotations h
 
+/-- A converted file's prover messages TILE the proof (`Loader.tiles`): the first `P->V[a:b]` range starts at byte 0,
+    every range starts where the previous one ended and spans 32 bytes per value it carries.  (This is the check the
+    real parser gained with the fix "reject annotation streams that are malformed, out of order or not fully
+    consumed"; removal, duplication or reordering of a message line breaks the tiling.) -/
+theorem prover_messages_tile {r : RawFile} {p : Stark.Proof} (h : convert r = .ok p) :
+    ∃ n, tiles r.annotations 0 = .ok n :=
+  convert_tiles h
+
+/-- a converted file carries exactly one commitment per inner FRI layer (`fri_step_list` has one entry per layer
+    including the first): a removed or extra `Layer k: Commitment` line is an error -/
+theorem fri_commitments_count {r : RawFile} {p : Stark.Proof} (h : convert r = .ok p) :
+    ((r.annotations.filterMap item?).filter isFriCommit).length + 1 = r.friStepList.length :=
+  convert_fri_commit_count h
+
+/-- one step of the tiling: a message line is accepted only at the byte where the previous one ended, and moves
+    the cursor to its own end, which is `32 ·` (number of its values) further -/
+theorem tiles_step (s : String) (rest : List String) (next n : Nat) (it : Item)
+    (hl : parseLine s = .ok (some it)) (h : tiles (s :: rest) next = .ok n) :
+    ∃ b, lineRange? s = some (next, b) ∧ b = next + 32 * it.values.length ∧ tiles rest b = .ok n := by
+  unfold tiles at h
+  rw [hl] at h
+  dsimp only at h
+  cases hr : lineRange? s with
+  | none => rw [hr] at h; cases h
+  | some ab =>
+    obtain ⟨a, b⟩ := ab
+    rw [hr] at h
+    dsimp only at h
+    by_cases hc : a = next ∧ a + 32 * it.values.length = b
+    · rw [if_pos hc] at h
+      obtain ⟨rfl, rfl⟩ := hc
+      exact ⟨_, rfl, rfl, h⟩
+    · rw [if_neg hc] at h; cases h
+
+/-- a non-message line (title, verifier message, statistics) does not move the cursor -/
+theorem tiles_skip (s : String) (rest : List String) (next : Nat) (hl : parseLine s = .ok none) :
+    tiles (s :: rest) next = tiles rest next := by
+  conv => lhs; unfold tiles
+  rw [hl]
+
+/-- a DUPLICATED message line (one carrying at least one value) never tiles: the copy would have to start where the
+    original ended, but it carries the original's range -/
+theorem duplicated_message_fails (s : String) (rest : List String) (next : Nat) (it : Item)
+    (hl : parseLine s = .ok (some it)) (hv : it.values ≠ []) : ∃ e, tiles (s :: s :: rest) next = .error e := by
+  rcases ok_or_error (tiles (s :: s :: rest) next) with ⟨n, hn⟩ | he
+  · obtain ⟨b, hr, hb, h2⟩ := tiles_step s (s :: rest) next n it hl hn
+    obtain ⟨b', hr', _, _⟩ := tiles_step s rest b n it hl h2
+    rw [hr] at hr'
+    have hlen : 0 < it.values.length := List.length_pos_iff.mpr hv
+    have : next = b := by injection hr' with h1; injection h1
+    omega
+  · exact he
+
 /-! ## 2. Data / Hash order -/
 
 /-- The real parser builds the authentication nodes of a trace table as (all `Data` lines) ++ (all `Hash`
